@@ -502,51 +502,53 @@ func (s *Sim) LockHook(kind string, m any, mode string, site string) {
 	m = lockKey(m)
 	switch kind {
 	case "pre":
+		// Stage 1, "about to call Lock()": a yield point like any other (always
+		// eligible: being descheduled right before the call is one thing, having
+		// called it another). None while holding another lock (unless this run
+		// yields at nested acquisitions too), none when automatic yields are off
+		// for the run, none inside a sync.Once.
 		s.mu.Lock()
 		nested := s.depth[gid] > 0 && !s.autoNested
-		busy := !s.lockFreeLocked(m, mode, gid)
-		if !nested && !s.AutoOff && insideOnce() {
-			nested = true
+		s.mu.Unlock()
+		if !nested && !s.AutoOff && !insideOnce() {
+			s.Hook("lock@"+site, nil)
 		}
-		if mode == "W" && (busy || !(nested || s.AutoOff)) {
-			// from here on this goroutine counts as having called Lock()
-			ls := s.locks[m]
-			if ls == nil {
-				ls = &lockState{}
-				s.locks[m] = ls
+		// Stage 2, the call itself. If the mutex is held - by a task parked
+		// inside its critical section (the per-service deploy lock and the
+		// snapshot lock are held across yield points), by a goroutine running in
+		// this very step, or, for RLock, wanted by a pending writer - the
+		// goroutine waits as a parked task rather than in a real Lock(), which
+		// would keep the bubble from becoming quiescent. A would-be writer is a
+		// pending writer from here on. The scheduler lets such a waiter continue,
+		// without a decision, a tick or a trace entry, at the first quiescent
+		// point at which the mutex is free: exactly what the mutex itself would
+		// have done, so the step structure does not depend on who won a race
+		// inside a step. Lock-order cycles are found in the wait-for graph.
+		s.mu.Lock()
+		busy := !s.lockFreeLocked(m, mode, gid)
+		var t *Task
+		if busy && !s.disabled[lockHeldPoint] {
+			if mode == "W" {
+				ls := s.locks[m]
+				if ls == nil {
+					ls = &lockState{}
+					s.locks[m] = ls
+				}
+				ls.pendingW++
+				s.announced[gid] = m
 			}
-			ls.pendingW++
-			s.announced[gid] = m
+			t = s.tasks[gid]
+			if t == nil {
+				// not a task yet: wait under a throw-away identity, so that the
+				// name this goroutine gets at its first real yield point does
+				// not depend on whether it had to wait here
+				t = &Task{name: fmt.Sprintf("~%020d", gid), kind: "repo", wake: make(chan struct{})}
+			}
 		}
 		s.mu.Unlock()
-		if nested || s.AutoOff {
-			// No yield while holding another lock, or when automatic yields are
-			// switched off for this run. If the mutex is held (by a task parked
-			// inside its critical section: the per-service deploy lock and the
-			// snapshot lock are held across yield points; or by a goroutine that
-			// runs in this very step), wait as a parked task rather than in a
-			// real Lock(), which would keep the bubble from becoming quiescent.
-			// The scheduler lets such a waiter continue, without a decision, a
-			// tick or a trace entry, at the first quiescent point at which the
-			// mutex is free: exactly what the mutex itself would have done, so
-			// the step structure does not depend on who won the race inside a
-			// step. Lock-order cycles leave the waiters parked for good; the run
-			// then ends on its budget with commands that never returned.
-			if busy && !s.disabled[lockHeldPoint] {
-				s.mu.Lock()
-				t := s.tasks[gid]
-				if t == nil {
-					// not a task yet: wait under a throw-away identity, so that the
-					// name this goroutine gets at its first real yield point does
-					// not depend on whether it had to wait here
-					t = &Task{name: fmt.Sprintf("~%020d", gid), kind: "repo", wake: make(chan struct{})}
-				}
-				s.mu.Unlock()
-				s.park(t, lockHeldPoint, lockWant{m: m, mode: mode, gid: gid})
-			}
-			return
+		if t != nil {
+			s.park(t, lockHeldPoint, lockWant{m: m, mode: mode, gid: gid})
 		}
-		s.Hook("lock@"+site, lockWant{m: m, mode: mode, gid: gid})
 	case "acq":
 		s.mu.Lock()
 		s.depth[gid]++
